@@ -58,6 +58,8 @@ def apply_edit(root, m):
                 return "skip: search text found %d times (expected %d) in %s" % (n, want, e["file"])
             if e.get("nth"):
                 idx = -1
+                if n < e["nth"]:
+                    return "skip: search text found %d times (need occurrence %d) in %s" % (n, e["nth"], e["file"])
                 for _ in range(e["nth"]):
                     idx = s.index(e["find"], idx + 1)
                 s = s[:idx] + e["replace"] + s[idx + len(e["find"]):]
